@@ -54,7 +54,7 @@ func init() {
 			ev.Coverage["evaluations"] = m.Counters["codec_evaluations"]
 			ev.Coverage["distinct_nontrivial"] = len(m.Sets["codec_shapes"])
 			ev.Coverage["explanation"] = "states = (block or momentum, variant) pairs; transitions = executions of the real AddAccountBlocks / InsertChain on real nodes; evaluations = codec round trips of part A, distinct_nontrivial = distinct (kind, field-shape) classes among the encoded objects"
-			for _, set := range []string{"outcomes", "refusal_reasons", "momentum_outcomes", "escalations", "call_data"} {
+			for _, set := range []string{"outcomes", "refusal_reasons", "momentum_outcomes", "escalations", "call_data", "vm_panic_variants", "json_forms", "codecs"} {
 				var l []string
 				for e := range m.Sets[set] {
 					l = append(l, e)
@@ -62,19 +62,30 @@ func init() {
 				sort.Strings(l)
 				ev.Coverage["table_"+set] = l
 			}
-			if m.Incomplete {
+			if m.Counters["replay_mode"] > 0 {
 				return
 			}
-			if os.Getenv("C13_NOGUARD") != "" {
+			// observations that are not violations of the statement
+			if n := len(m.Sets["vm_panic_variants"]); n > 0 {
+				ev.Notes = append(ev.Notes, fmt.Sprintf("%d (class, field) alterations made the VM panic inside Supervisor.applyBlock on the receiving node (recovered there and turned into a refusal, store unchanged): see table_vm_panic_variants", n))
+			}
+			ev.Notes = append(ev.Notes, fmt.Sprintf("call data: %d non-canonical encodings of the same arguments (%d distinct method/form pairs) were delivered; re-encoded by a relay with hash and signature kept they are accepted and stored as the canonical bytes (ValidateSendBlock repacks before the hash is checked); hashed and signed over the non-canonical bytes by the key holder they are refused (hash mismatch after repacking): see table_call_data", m.Counters["call_data_same_args_variants"], len(m.Sets["call_data_forms"])))
+			ev.Notes = append(ev.Notes, fmt.Sprintf("JSON forms: %d alternative number/string spellings tried on the nom JSON form: %d refused, %d decode to the same block, %d decode to another block whose hash no longer matches (malformed amounts such as \" 5\" or \"0x5\" are silently read as 0 by common.StringToBigInt; for a descendant block this goes unnoticed for the reason reported under the contract-receive key)",
+				m.Counters["json_forms_tried"], m.Counters["json_forms_refused"], m.Counters["json_forms_same_block"], m.Counters["json_forms_other_block_hash_mismatch"]))
+			if m.Incomplete {
 				return
 			}
 			// vacuity guards
 			need := map[string]int64{"variants_refused": 1, "variants_accepted_normalised": 1, "honest_followers_identical": 1, "codec_evaluations": 1,
-				"momentum_variants_refused": 1, "codec_follower_checks": 1}
+				"momentum_variants_refused": 1, "codec_follower_checks": 1, "call_data_same_args_variants": 1, "blocks_with_descendants": 1,
+				"other_blocks_accepted": 1, "honest_momentum_followers_identical": 1}
 			for k, min := range need {
 				if m.Counters[k] < min {
 					panic(fmt.Sprintf("vacuity guard: counter %s = %d", k, m.Counters[k]))
 				}
+			}
+			if len(m.Sets["block_classes"]) < 5 {
+				panic(fmt.Sprintf("vacuity guard: only %d block classes explored", len(m.Sets["block_classes"])))
 			}
 			if len(m.Sets["codec_shapes"]) < 2 {
 				panic("vacuity guard: fewer than 2 distinct codec shapes")
@@ -90,7 +101,7 @@ type workItem struct {
 }
 
 func run(c *xs.Ctx, r *xs.Result) {
-	hs := histories(c.Tier)
+	hs := allHistories()
 	recs := map[int]*prodRec{}
 	getRec := func(hi int) *prodRec {
 		if recs[hi] == nil {
@@ -99,6 +110,7 @@ func run(c *xs.Ctx, r *xs.Result) {
 		return recs[hi]
 	}
 	if c.Replay != nil {
+		r.Count("replay_mode", 1)
 		var rep replayB
 		if err := json.Unmarshal(c.Replay, &rep); err != nil {
 			panic(err)
@@ -110,7 +122,7 @@ func run(c *xs.Ctx, r *xs.Result) {
 		case "C":
 			exploreMomentum(c, r, rep.Hist, getRec(rep.Hist), rep.Height, rep.Variant)
 		case "A":
-			codecPart(c, r, true)
+			codecPart(c, r, -1)
 		}
 		return
 	}
@@ -126,21 +138,30 @@ func run(c *xs.Ctx, r *xs.Result) {
 	// work list: the histories are tiny; their lengths are needed to shard, so every worker produces the variant
 	// histories once (≈0.2 s each)
 	var items []workItem
-	nVar := 3 // H3 (many headers) is used by the codec part and the momentum part only
+	nVar := 3 // quick: H3 (many headers) is used by the codec part and the momentum part only
+	if c.Thorough() {
+		nVar = nScripted
+	}
 	for hi := 0; hi < nVar; hi++ {
 		rec := getRec(hi)
 		for _, k := range rec.Pooled {
 			items = append(items, workItem{"B", hi, k.Idx})
 		}
 	}
-	for hi := range hs {
+	if c.Thorough() {
+		// enumerated family: one work item per history (only the worker that owns it produces it)
+		for hi := nScripted; hi < len(hs); hi++ {
+			items = append(items, workItem{"BH", hi, 0})
+		}
+	}
+	for hi := 0; hi < nScripted; hi++ {
 		for h := uint64(2); h <= getRec(hi).H; h++ {
 			items = append(items, workItem{"C", hi, int(h)})
 		}
 	}
-	items = append(items, workItem{part: "A"})
-	// heavy items first within a shard does not matter; keep the order stable
-	sort.SliceStable(items, func(i, j int) bool { return false })
+	for sub := 0; sub < codecSubs; sub++ {
+		items = append(items, workItem{"A", 0, sub})
+	}
 	for i, it := range items {
 		if !c.Mine(i) {
 			continue
@@ -160,10 +181,29 @@ func run(c *xs.Ctx, r *xs.Result) {
 			exploreBlock(c, r, it.hist, rec, k, "")
 			r.Count("blocks_explored", 1)
 			r.Add("block_classes", blockClass(k.Block))
+			if len(k.Block.DescendantBlocks) > 0 {
+				r.Count("blocks_with_descendants", 1)
+			}
+		case "BH":
+			rec := getRec(it.hist)
+			for _, k := range rec.Pooled {
+				if k.HC == 0 {
+					panic(fmt.Sprintf("history %d [%s]: block %d is never confirmed", it.hist, ops.Hist(rec.Hist), k.Idx))
+				}
+				exploreBlock(c, r, it.hist, rec, k, "")
+				r.Count("blocks_explored", 1)
+				r.Add("block_classes", blockClass(k.Block))
+				if len(k.Block.DescendantBlocks) > 0 {
+					r.Count("blocks_with_descendants", 1)
+				}
+			}
+			r.Count("enumerated_histories", 1)
+			r.Add("enumerated_outcomes", fmt.Sprint(rec.Outcome))
+			delete(recs, it.hist)
 		case "C":
 			exploreMomentum(c, r, it.hist, getRec(it.hist), uint64(it.block), "")
 		case "A":
-			codecPart(c, r, false)
+			codecPart(c, r, it.block)
 		}
 	}
 }
